@@ -325,6 +325,141 @@ def inline_new_helpers(raw, known):
     return sorted(used)
 
 
+def _ret_of(sig):
+    """return type of a printed fn signature ('' for none); None when the signature cannot be read"""
+    i = sig.find('fn(')
+    if i < 0:
+        return None
+    depth = 0
+    for j in range(i + 2, len(sig)):
+        if sig[j] in '([<' and not (sig[j] == '<' and sig[j - 1] == '-'):
+            depth += 1
+        elif sig[j] in ')]' or (sig[j] == '>' and sig[j - 1] != '-'):
+            depth -= 1
+            if depth == 0 and sig[j] == ')':
+                rest = sig[j + 1:].strip()
+                return rest[2:].strip() if rest.startswith('->') else ('' if not rest else None)
+    return None
+
+
+def summarise_tail_returns(raw, known):
+    """A14: an audited function that returned nothing and now returns what an accessor reads from `self` as its last act
+    (`fn apply_path(&mut self, ..) -> IntRect { ..; self.rasterizer.get_bounds() }`) is the audited function followed by
+    that accessor call at every call site: the tail calls leave the function and appear after each call of it, reading
+    the same field path of the caller's receiver.  Returns the names of the functions so summarised."""
+    if known is None:
+        return []
+    done = []
+    bodies = {b['q']: b for b in raw['bodies']}
+    for q, f in bodies.items():
+        kq = known.get(q)
+        if not isinstance(kq, dict) or not kq.get('sig') or _ret_of(kq['sig']) not in ('', '()'):
+            continue
+        if _ret_of(f.get('sig') or '') in ('', '()', None):
+            continue
+        tails = []
+        ok = True
+        for bi, blk in enumerate(f['blocks']):
+            if blk.get('cleanup'):
+                continue
+            for st in blk['st']:
+                if st.get('k') == 'assign' and st['p']['l'] == 0:
+                    ok = False
+            t = blk['t']
+            if t['k'] == 'call' and t['dest']['l'] == 0:
+                if t['dest']['pr'] or len(t['args']) != 1 or t['args'][0].get('k') != 'move' or t['args'][0]['p']['pr']:
+                    ok = False
+                    continue
+                u = t['args'][0]['p']['l']
+                defs = [st for st in blk['st'] if st.get('k') == 'assign' and st['p']['l'] == u and not st['p']['pr']]
+                if len(defs) != 1 or defs[0]['rv'].get('k') != 'ref' or defs[0]['rv'].get('mut') or _single_def(f, u) is None:
+                    ok = False
+                    continue
+                p = defs[0]['rv']['p']
+                if p['l'] != 1 or not p['pr'] or p['pr'][0].get('k') != 'deref' or any(e.get('k') != 'field' for e in p['pr'][1:]):
+                    ok = False
+                    continue
+                if any(_uses_local(st, u) for blk2 in f['blocks'] for st in blk2['st'] if st is not defs[0]):
+                    ok = False
+                    continue
+                tails.append((bi, defs[0], json.dumps(p['pr'][1:], sort_keys=True), _callee(t)))
+        if not ok or not tails or len(set((x[2], x[3]) for x in tails)) != 1 or not tails[0][3]:
+            continue
+        g = tails[0][3]
+        if g in (kq.get('callees') or []) or g == q:
+            continue
+        path = json.loads(tails[0][2])
+        proto = f['blocks'][tails[0][0]]['t']
+        # every call site must hand over a reference whose referent can be named in the caller
+        plan = []
+        for cq, c in bodies.items():
+            if cq == q:
+                if any(_callee(blk['t']) == q for blk in c['blocks'] if blk['t']['k'] == 'call'):
+                    ok = False
+                continue
+            for bi, blk in enumerate(c['blocks']):
+                t = blk['t']
+                if t['k'] != 'call' or _callee(t) != q:
+                    continue
+                a = t['args'][0] if t['args'] else None
+                if not a or a.get('k') not in ('move', 'copy') or a['p']['pr'] or t.get('t') is None:
+                    ok = False
+                    continue
+                ud = _single_def(c, a['p']['l'])
+                for _hop in range(4):
+                    if ud is None:
+                        break
+                    rv0 = ud[2]['rv']
+                    if rv0.get('k') == 'use' and rv0['o'].get('k') in ('move', 'copy') and not rv0['o']['p']['pr'] and str(c['locals'][rv0['o']['p']['l']].get('ty', '')).startswith('&') and _single_def(c, rv0['o']['p']['l']):
+                        ud = _single_def(c, rv0['o']['p']['l'])
+                    else:
+                        break
+                if ud is None:
+                    if a['p']['l'] <= (c.get('argc') or 0):
+                        plan.append((c, bi, {'l': a['p']['l'], 'pr': [{'k': 'deref'}]}))     # the caller's own parameter
+                        continue
+                    ok = False
+                    continue
+                rv0 = ud[2]['rv']
+                if rv0.get('k') == 'ref' and all(e.get('k') in ('deref', 'field') for e in rv0['p']['pr']):
+                    plan.append((c, bi, copy.deepcopy(rv0['p'])))
+                elif rv0.get('k') == 'use' and rv0['o'].get('k') in ('move', 'copy') and not rv0['o']['p']['pr'] and rv0['o']['p']['l'] <= (c.get('argc') or 0):
+                    plan.append((c, bi, {'l': rv0['o']['p']['l'], 'pr': [{'k': 'deref'}]}))
+                else:
+                    ok = False
+        if not ok:
+            continue
+        for bi, d, _p, _g in tails:
+            blk = f['blocks'][bi]
+            blk['st'] = [st for st in blk['st'] if st is not d]
+            blk['t'] = {'k': 'goto', 't': blk['t']['t'], 'sp': blk['t'].get('sp')}
+        f['sig'] = kq['sig']
+        for c, bi, root in plan:
+            blk = c['blocks'][bi]
+            t = blk['t']
+            tmp = len(c['locals'])
+            c['locals'].append({'ty': (proto.get('arg_tys') or [''])[0], 'name': None})
+            unit = len(c['locals'])
+            c['locals'].append({'ty': '()', 'name': None})
+            nb = len(c['blocks'])
+            call = copy.deepcopy(proto)
+            for extra in ('unwind', 'cleanup_t', 'u'):
+                call.pop(extra, None)
+            call['args'] = [{'k': 'move', 'p': {'l': tmp, 'pr': []}}]
+            call['dest'] = copy.deepcopy(t['dest'])
+            call['t'] = t['t']
+            call['sp'] = t.get('sp')
+            c['blocks'].append({'st': [{'k': 'assign', 'p': {'l': tmp, 'pr': []}, 'rv': {'k': 'ref', 'mut': False, 'p': {'l': root['l'], 'pr': root['pr'] + copy.deepcopy(path)}},
+                                        'ty': (proto.get('arg_tys') or [''])[0], 'sp': t.get('sp')}], 't': call})
+            t['dest'] = {'l': unit, 'pr': []}
+            t['dest_ty'] = '()'
+            t['t'] = nb
+            if isinstance(t.get('f'), dict) and isinstance(t['f'].get('ty'), str) and ' -> ' in t['f']['ty']:
+                pass
+        done.append('%s returns %s' % (q.split('::')[-1], g.split('::')[-1]))
+    return done
+
+
 def _inline_at(b, bi, callee, forward_refs=True):
     blk = b['blocks'][bi]
     t = blk['t']
